@@ -18,6 +18,10 @@ def cases_for(tier):
         for tm in timers:
             for i in (idles if tier == "thorough" or tm in (-1, 20, -2, -4) else [0, 3, 5, 6]):
                 out.append("%d %d %d" % (t, tm, i))
+    # a before_sleep hook that takes 300 ms (idle kind 7): the wait that follows is shortened by what the hook took - the dispatch ends at
+    # max(300 ms, the limit), it does not sleep the limit again
+    for t, tm in ((400, 250), (400, -1), (-1, 250), (0, -1), (400, 20)):
+        out.append("%d %d 7" % (t, tm))
     # a wake-up that is already pending when the dispatch starts (issued on the loop's thread just before it, or from a callback of the
     # previous dispatch): the dispatch must not block, whatever its timeout
     for t in (400, -1, -2):
@@ -50,6 +54,14 @@ def judge(case, impl, eff_ms, limit_is_timer):
         fails.append("spurious: an idle source's callback ran %d times" % other)
     if t < 0 and not prewake and (eff_ms < 0 or eff_ms > WAKE_MS):
         eff_ms, limit_is_timer = WAKE_MS, False      # the wakeup() from the other thread ends the wait first
+    if idle == 7:
+        # the hook itself takes 300 ms; then the poller is given the caller's timeout (a duration) or what is LEFT until the earliest
+        # deadline (an instant) - the time the hook took is not slept again for a timer
+        inf = 10 ** 9
+        left_timer = max(0, tm - 300) if tm >= 0 else inf
+        left_timeout = t if t >= 0 else (0 if WAKE_MS <= 300 else inf)      # None: the helper's wakeup() (150 ms) is pending by then
+        eff_ms = 300 + min(left_timer, left_timeout)
+        limit_is_timer = tm >= 0 and left_timer <= left_timeout
     want_us = eff_ms * 1000
     if el + SLACK_LOW_US < want_us:
         fails.append("spinning/early: dispatch returned after %d us, the limit is %d us" % (el, want_us))
